@@ -12,7 +12,9 @@ RULE = (
     "optionally a parameter scenario (linear or stepped, on data and on function parameters of all three evaluation kinds, on transfers); oracle = independent recomputation of EVERY "
     "parameter at EVERY index by the precedence chain from atomica's own same-step values of the dependencies (own interpolation, own expression evaluator, own aggregation formula), "
     "1e-9; initial compartment sizes = databook value x factors; non-trivial = some parameter has two precedence stages active at the same index (function value clipped, data between "
-    "years with factor != 1, scenario inside a function parameter); distinct = spec hash"
+    "years with factor != 1, scenario inside a function parameter); distinct = spec hash.  One case in four is a HISTORY of edits of a single TimeSeries (insert, list insert, assumption, "
+    "remove, remove_before/after/between, copy/deepcopy/pickle) checked after every step against a dict model, then interpolated (linear and stepped) at drawn and entered times against "
+    "the documented rule (exact at entered times, linear between, constant outside, assumption only without time values, NaN when empty); non-trivial there = >= 2 points after a removal"
 )
 ASSUMPTIONS = [
     "dependencies are read from atomica's arrays at the same index (one-step style), so an error shows up in the dependent parameter",
@@ -56,11 +58,115 @@ def cases(draw, prof):
     return {"spec": spec, "scen": scen}
 
 
+_TS_T = [1990.0, 1995.5, 2000.0, 2000.1, 2000.2, 2000.30000000000001, 2001.0, 2003.0, 2010.0, 2020.25]
+_TS_V = [0.0, 1.0, 0.5, 2.0, -1.0, 1e-9, 1e6, 0.1, 0.30000000000000004, 7.25]
+
+
+@st.composite
+def ts_cases(draw):
+    """history of edits of one TimeSeries (the object every databook / program book / scenario value lives in), then queries"""
+    tval = st.sampled_from(_TS_T) | st.floats(1985.0, 2025.0, allow_nan=False).map(lambda x: round(x, 3))
+    vval = st.sampled_from(_TS_V) | st.floats(-10.0, 100.0, allow_nan=False)
+    n = draw(st.integers(1, 10))
+    ops = []
+    for _ in range(n):
+        k = draw(st.sampled_from(["insert", "insert", "insert", "insert", "insert-list", "assume", "remove", "remove-assumption", "remove_before", "remove_after", "remove_between", "copy"]))
+        if k == "insert":
+            ops.append([k, draw(tval), draw(vval)])
+        elif k == "insert-list":
+            m = draw(st.integers(1, 4))
+            ops.append([k, [draw(tval) for _ in range(m)], [draw(vval) for _ in range(m)]])
+        elif k == "assume":
+            ops.append([k, draw(vval)])
+        elif k == "remove":
+            ops.append([k, draw(st.integers(0, 5))])  # index into the current (sorted) times, modulo their number
+        elif k == "remove_between":
+            a, b_ = sorted([draw(tval), draw(tval)])
+            ops.append([k, a, b_])
+        elif k in ("remove_before", "remove_after"):
+            ops.append([k, draw(tval)])
+        else:
+            ops.append([k])
+    queries = draw(st.lists(tval, min_size=1, max_size=8))
+    return {"kind": "ts", "ops": ops, "queries": queries, "on_points": draw(st.booleans())}
+
+
 def strategy(tier):
     prof = dict(PROFILE)
     if tier == "thorough":
         prof.update(max_steps=50, max_ord=6, max_pops=4)
-    return cases(prof)
+    return st.one_of(cases(prof), cases(prof), cases(prof), ts_cases())
+
+
+def check_ts(case):
+    """model-based check of TimeSeries: a dict {time: value} + assumption is the reference; interpolation by the documented rule
+    (exact at entered times, linear in between, constant outside the range, the assumption only when there are no time values,
+    NaN when there is nothing)"""
+    import copy as _copy
+    import pickle
+    import atomica as at
+
+    ts = at.TimeSeries()
+    model, assumption = {}, None
+    labels = set()
+    for op in case["ops"]:
+        k = op[0]
+        if k == "insert":
+            ts.insert(op[1], op[2]); model[float(op[1])] = float(op[2])
+        elif k == "insert-list":
+            ts.insert(op[1], op[2])
+            for a, b_ in zip(op[1], op[2]):
+                model[float(a)] = float(b_)
+        elif k == "assume":
+            ts.insert(None, op[1]); assumption = float(op[1])
+        elif k == "remove":
+            if model:
+                tt = sorted(model)[op[1] % len(model)]
+                ts.remove(tt); del model[tt]
+        elif k == "remove-assumption":
+            ts.remove(None); assumption = None
+        elif k == "remove_before":
+            ts.remove_before(op[1]); model = {a: b_ for a, b_ in model.items() if not a < op[1]}
+        elif k == "remove_after":
+            ts.remove_after(op[1]); model = {a: b_ for a, b_ in model.items() if not a > op[1]}
+        elif k == "remove_between":
+            ts.remove_between([op[1], op[2]]); model = {a: b_ for a, b_ in model.items() if not (op[1] < a < op[2])}
+        elif k == "copy":
+            ts = [ts.copy, lambda: _copy.deepcopy(ts), lambda: pickle.loads(pickle.dumps(ts))][len(model) % 3]()
+        labels.add("ts-op:" + k)
+        # content after every step
+        if list(ts.t) != sorted(model) or [float(x) for x in ts.vals] != [model[a] for a in sorted(model)] or ts.assumption != assumption:
+            raise Violation(ID, "timeseries/content", "after %r the TimeSeries holds t=%r vals=%r assumption=%r; the edits so far give %r, assumption %r (history %r)" % (op, list(ts.t), list(ts.vals), ts.assumption, sorted(model.items()), assumption, case["ops"]))
+    queries = list(case["queries"])
+    if case.get("on_points") and model:
+        queries += sorted(model)[:3]
+    entry = {"t": sorted(model), "v": [model[a] for a in sorted(model)], "a": assumption}
+    for method in ("linear", "previous"):
+        got = np.asarray(ts.interpolate(np.array(queries, dtype=float), method=method), dtype=float)
+        if got.shape != (len(queries),):
+            raise Violation(ID, "timeseries/interpolate-shape", "interpolate(%r) returned shape %r" % (queries, got.shape))
+        for q, g in zip(queries, got):
+            exp = datainterp.series_value(entry, q, method)
+            ok = (math.isnan(exp) and math.isnan(g)) or g == exp or abs(g - exp) <= 1e-12 * max(1.0, abs(exp), max([abs(v) for v in model.values()] or [0.0]))
+            if q in model and len(model) >= 1 and not (g == model[q] or abs(g - model[q]) <= 1e-15 * max(1.0, abs(model[q]))):
+                ok = False
+            if not ok:
+                raise Violation(ID, "timeseries/interpolate-%s" % method, "TimeSeries t=%r vals=%r assumption=%r interpolated (%s) at %r gives %r, the documented rule gives %r (history %r)" % (entry["t"], entry["v"], assumption, method, q, float(g), exp, case["ops"]))
+    # single-time queries and get()
+    q = queries[0]
+    one = np.asarray(ts.interpolate(q), dtype=float)
+    exp = datainterp.series_value(entry, q)
+    if one.shape != (1,) or not ((math.isnan(exp) and math.isnan(one[0])) or abs(one[0] - exp) <= 1e-12 * max(1.0, abs(exp), max([abs(v) for v in model.values()] or [0.0]))):
+        raise Violation(ID, "timeseries/interpolate-scalar", "interpolate(%r) gives %r, expected [%r] (t=%r vals=%r)" % (q, one, exp, entry["t"], entry["v"]))
+    if ts.has_data != bool(model or assumption is not None) or ts.has_time_data != bool(model):
+        raise Violation(ID, "timeseries/has-data", "has_data=%r has_time_data=%r for t=%r assumption=%r" % (ts.has_data, ts.has_time_data, entry["t"], assumption))
+    if len(model) >= 2:
+        labels.add("ts:interpolated")
+    if model and assumption is not None:
+        labels.add("ts:assumption-ignored-because-of-time-data")
+    if any(min(model) <= q_ <= max(model) and q_ not in model for q_ in queries) if model else False:
+        labels.add("ts:query-between-points")
+    return {"nontrivial": len(model) >= 2 and any(o[0].startswith("remove") for o in case["ops"]), "labels": sorted(labels) + ["kind:timeseries-history"]}
 
 
 def scen_value(ov, t, method):
@@ -84,6 +190,8 @@ def flow_value(pop, sel, ti, dt, lv):
 def check(case):
     import atomica as at
 
+    if case.get("kind") == "ts":
+        return check_ts(case)
     spec, scen = case["spec"], case.get("scen")
     simcase.quiet()
     try:
